@@ -152,7 +152,7 @@ def check_src_consumption(rep, I, st, where):
               "header of 4 bytes included): %r" % (L.cond,), node=L.node)
 
 
-def check_callout_accounting(rep, prog):
+def check_callout_accounting(rep, prog, pfx="C01.R4.callout"):
     """Callout substructure walk: per substructure kind the bytes consumed equal the amount added to the
     size counter, the walk is bounded by the callout size byte, and flattenedSize() sums the same parts."""
     I = Interpreter(prog)
@@ -163,7 +163,7 @@ def check_callout_accounting(rep, prog):
     where = "Callout.__init__"
     loops = [L for L in I.loops.values() if L.func.endswith("Callout.__init__")]
     if len(loops) != 1 or loops[0].kind != "while":
-        rep.fail("C01.R4.callout", where, "while ...", "callout substructures are not walked by one bounded loop")
+        rep.fail(pfx, where, "while ...", "callout substructures are not walked by one bounded loop")
         return
     L = loops[0]
     size = IntF(B, 1)
@@ -173,25 +173,25 @@ def check_callout_accounting(rep, prog):
     lvs = [x for x in walk(L.cond) if isinstance(x, Sym) and x.kind == "loopvar"]
     ok = isinstance(L.cond, Op) and len(lvs) == 1 and cnt_k and lvs[0].name.endswith(":" + cnt_k[0]) and \
         equivalent(subst(L.cond, {lvs[0]: Sym("cur", "int")}), compare("gt", size, Sym("cur", "int")))[0]
-    rep.check(ok, "C01.R4.callout", "substructure walk continues only while callout size byte > bytes accounted",
+    rep.check(ok, pfx, "substructure walk continues only while callout size byte > bytes accounted",
               where, L.node, "substructure walk is not bounded by the callout's size byte: guard %r, counters %s" % (
                   L.cond, cnt_k), node=L.node)
     if not (ok and idx_k):
         if not cnt_k:
-            rep.fail("C01.R4.callout", where, L.node, "loop guard operands are never updated in the loop body: the size "
+            rep.fail(pfx, where, L.node, "loop guard operands are never updated in the loop body: the size "
                      "byte does not bound the walk", node=L.node)
         return
     ci, cn, cd, _ = L.carried[cnt_k[0]]
     ii, inx, idl, _ = L.carried[idx_k[0]]
     e, env, _ = equivalent(ci, add(Const(4), loclen))
     e2, env2, _ = equivalent(ii, add(add(B, Const(4)), loclen)) if True else (True, None, 0)
-    rep.check(e, "C01.R4.callout", "counter starts at 4 + location code length", where, "currentSize = ...",
+    rep.check(e, pfx, "counter starts at 4 + location code length", where, "currentSize = ...",
               "size counter starts at %r, the fixed part of a callout is 4 + location code length" % (ci,))
     lv_i = Sym("lv%d:%s" % (L.lid, idx_k[0]), "loopvar", None)
     lv_c = lvs[0]
     lv_i = [x for x in walk(inx) if isinstance(x, Sym) and x.kind == "loopvar" and x.name.endswith(idx_k[0])]
     if not lv_i:
-        rep.fail("C01.R4.callout", where, L.node, "cannot relate stream position and size counter", node=L.node)
+        rep.fail(pfx, where, L.node, "cannot relate stream position and size counter", node=L.node)
         return
     lv_i = lv_i[0]
     d_idx = sub(inx, lv_i)
@@ -217,9 +217,9 @@ def check_callout_accounting(rep, prog):
     e1, env1, n1 = equivalent(d_idx, g_i, domain=dom, max_exhaustive=1 << 22)
     e3, env3, n3 = equivalent(d_cnt, g_c, domain=dom, max_exhaustive=1 << 22)
     rep.count("callout accounting valuations", n1 + n3)
-    rep.check(e1, "C01.R4.callout", "each substructure consumes FRU 4[+8][+4][+12] / PCE size byte (>=24) / MRU 8+8n bytes",
+    rep.check(e1, pfx, "each substructure consumes FRU 4[+8][+4][+12] / PCE size byte (>=24) / MRU 8+8n bytes",
               where, L.node, "bytes consumed per substructure differ from the PEL format (%s): %r" % (env_str(env1), d_idx), node=L.node)
-    rep.check(e3, "C01.R4.callout", "size counter advances by the substructure's own size (FRU: bytes read; PCE/MRU: size byte)",
+    rep.check(e3, pfx, "size counter advances by the substructure's own size (FRU: bytes read; PCE/MRU: size byte)",
               where, L.node, "size counter is not advanced by the size of the substructure just read (%s): %r" % (env_str(env3), d_cnt), node=L.node)
     # flattenedSize(): 4 + locationCodeSize + fru + pce + mru sizes of the same objects
     co = I.obj(c)
@@ -234,7 +234,7 @@ def check_callout_accounting(rep, prog):
     uses = {nm: any(isinstance(x, Sym) and x.kind == "loopout" and x.name.endswith("." + nm) for x in deps)
             for nm in ("fruIdentity", "pceIdentity", "mru")}
     okf = all(uses.values()) and any(x == loclen for x in deps)
-    rep.check(okf, "C01.R4.callout", "Callout.flattenedSize() = 4 + location length + sizes of FRU, PCE and MRU parts",
+    rep.check(okf, pfx, "Callout.flattenedSize() = 4 + location length + sizes of FRU, PCE and MRU parts",
               "Callout.flattenedSize", "return size", "flattenedSize() does not add up the fixed part, the location code and "
               "all three optional substructures (%s): the callout walk would drift" % uses)
 
